@@ -14,6 +14,7 @@ import (
 	_ "embed"
 	"encoding/json"
 	"fmt"
+	"go/token"
 	"go/types"
 	"os"
 	"sort"
@@ -26,9 +27,11 @@ import (
 var knownJSON []byte
 
 type knownTable struct {
-	Funcs  map[string]string      `json:"funcs"`  // fnKey -> signature (types only)
-	Fields map[string][][2]string `json:"fields"` // "pkg.Struct" -> [[name, type], ...]
-	Consts map[string]string      `json:"consts"` // "pkg.Name" -> exact value
+	Funcs    map[string]string      `json:"funcs"`    // fnKey -> signature (types only)
+	Fields   map[string][][2]string `json:"fields"`   // "pkg.Struct" -> [[name, type], ...]
+	Consts   map[string]string      `json:"consts"`   // "pkg.Name" -> exact value
+	Callee   map[string]string      `json:"callee"`   // fnKey -> the name callee() gives calls of it
+	Closures map[string][]string    `json:"closures"` // top-level fnKey -> signatures of its (nested) closures
 }
 
 var known knownTable
@@ -84,10 +87,22 @@ func (c *Ctx) structTypes() map[string]*types.Struct {
 }
 
 func (c *Ctx) dumpKnown(path string) error {
-	k := knownTable{Funcs: map[string]string{}, Fields: map[string][][2]string{}, Consts: map[string]string{}}
+	k := knownTable{Funcs: map[string]string{}, Fields: map[string][][2]string{}, Consts: map[string]string{}, Callee: map[string]string{}, Closures: map[string][]string{}}
+	for _, f := range c.Funcs {
+		if f.Parent() != nil {
+			top := fnKey(topOf(f))
+			k.Closures[top] = append(k.Closures[top], sigKey(f.Signature))
+		}
+	}
+	for top := range k.Closures {
+		sort.Strings(k.Closures[top])
+	}
 	for _, f := range c.Funcs {
 		if f.Parent() == nil {
 			k.Funcs[fnKey(f)] = sigKey(f.Signature)
+			if o := f.Object(); o != nil {
+				k.Callee[fnKey(f)] = short(o.(*types.Func).FullName())
+			}
 		}
 	}
 	for name, st := range c.structTypes() {
@@ -176,6 +191,43 @@ func (c *Ctx) resolveKnown() {
 			newHelpers[f] = true
 		}
 	}
+	// local closures that did not exist (by signature) in their function and are called directly
+	// ("fetch := func(c IndexChunk) ([]byte, error) {...}; b, err := fetch(job.chunk)") are helpers too
+	if known.Closures != nil {
+		budget := map[string]map[string]int{}
+		for top, sigs := range known.Closures {
+			budget[top] = map[string]int{}
+			for _, sg := range sigs {
+				budget[top][sg]++
+			}
+		}
+		called := map[*ssa.Function]bool{}
+		for _, f := range c.Funcs {
+			for _, b := range f.Blocks {
+				for _, ins := range b.Instrs {
+					if call, ok := ins.(*ssa.Call); ok {
+						if g := directCallee(call); g != nil && g.Parent() != nil {
+							called[g] = true
+						}
+					}
+				}
+			}
+		}
+		for _, f := range c.Funcs {
+			if f.Parent() == nil || isNewHelper(f) {
+				continue
+			}
+			top := fnKey(topOf(f))
+			sg := sigKey(f.Signature)
+			if budget[top][sg] > 0 {
+				budget[top][sg]--
+				continue
+			}
+			if called[f] {
+				newHelpers[f] = true
+			}
+		}
+	}
 	// closures of aliased functions get their keys recomputed
 	for _, f := range c.Funcs {
 		c.byKey[fnKey(f)] = f
@@ -216,7 +268,7 @@ func (c *Ctx) indexHelperSites() {
 		for _, b := range f.Blocks {
 			for _, ins := range b.Instrs {
 				if ci, ok := ins.(ssa.CallInstruction); ok {
-					if h := ci.Common().StaticCallee(); h != nil && newHelpers[h] {
+					if h := directCallee(ci); h != nil && newHelpers[h] {
 						helperSites[h] = append(helperSites[h], ci)
 					}
 				}
@@ -287,7 +339,7 @@ func (c *Ctx) scope(fn *ssa.Function) {
 // helperResults returns, for a call of a new helper, the values the helper returns at result
 // position idx (nil if the callee is not a new helper).
 func helperResults(call ssa.CallInstruction, idx int) []ssa.Value {
-	h := call.Common().StaticCallee()
+	h := directCallee(call)
 	if h == nil && !call.Common().IsInvoke() {
 		// a call of a function-typed parameter of a new helper: the results of the closures passed in
 		if p, ok := call.Common().Value.(*ssa.Parameter); ok {
@@ -356,4 +408,59 @@ func (c *Ctx) subjects() []*ssa.Function {
 func knownConst(name string) (string, bool) {
 	v, ok := known.Consts[name]
 	return v, ok
+}
+
+// directCallee: the function a call runs when that is statically evident - a static callee, or
+// a function variable with exactly one definition ("fetch := func(...) {...}", also when a
+// closure captured the variable).
+func directCallee(call ssa.CallInstruction) *ssa.Function {
+	cc := call.Common()
+	if f := cc.StaticCallee(); f != nil {
+		return f
+	}
+	if cc.IsInvoke() {
+		return nil
+	}
+	v := cc.Value
+	for d := 0; d < 6; d++ {
+		switch x := v.(type) {
+		case *ssa.MakeClosure:
+			f, _ := x.Fn.(*ssa.Function)
+			return f
+		case *ssa.Function:
+			return x
+		case *ssa.ChangeType:
+			v = x.X
+		case *ssa.UnOp:
+			if x.Op != token.MUL {
+				return nil
+			}
+			var cell *ssa.Alloc
+			switch a := x.X.(type) {
+			case *ssa.Alloc:
+				cell = a
+			case *ssa.FreeVar:
+				if cs := captured(a); len(cs) == 1 {
+					cell, _ = cs[0].(*ssa.Alloc)
+				}
+			}
+			if cell == nil {
+				return nil
+			}
+			sts := storesTo(cell)
+			if len(sts) != 1 {
+				return nil
+			}
+			v = sts[0].Val
+		case *ssa.FreeVar:
+			cs := captured(x)
+			if len(cs) != 1 {
+				return nil
+			}
+			v = cs[0]
+		default:
+			return nil
+		}
+	}
+	return nil
 }
